@@ -32,7 +32,7 @@ const (
 	seqC = 6
 )
 
-var opNames = []string{"PushAmid", "PushAfin", "PushBmid", "PushAeoe", "Maintain", "Close"}
+var opNames = []string{"PushAmid", "PushAfin", "PushBmid", "PushAeoe", "Maintain", "Close", "TickMaintain"}
 
 const (
 	oPushAmid = iota
@@ -41,13 +41,15 @@ const (
 	oPushAeoe
 	oMaintain
 	oClose
+	oTickMaintain // let the (virtual) timeout of everything buffered elapse, then Maintain
 )
 
 // Program is one driver program: per thread a list of op codes.
 type Program struct {
 	Threads     [][]int
 	MaxInFlight int
-	Stream      int // 0 passive, 1 RC->Maintain, 2 RC->Push fresh, 3 EventsLost->Maintain
+	Stream      int // 0 passive, 1 RC->Maintain, 2 RC->Push fresh, 3 EventsLost->Maintain, 4 RC->Close
+	Timeout     int // 0: effectively infinite; n: n ticks (programs with TickMaintain)
 }
 
 func (p Program) String() string {
@@ -59,7 +61,7 @@ func (p Program) String() string {
 		}
 		ts = append(ts, strings.Join(os, ";"))
 	}
-	return fmt.Sprintf("maxInFlight=%d stream=%d threads=[%s]", p.MaxInFlight, p.Stream, strings.Join(ts, " | "))
+	return fmt.Sprintf("maxInFlight=%d stream=%d timeout=%d threads=[%s]", p.MaxInFlight, p.Stream, p.Timeout, strings.Join(ts, " | "))
 }
 
 type pushed struct {
@@ -135,7 +137,7 @@ func (h *harness) ReassemblyComplete(msgs []*auparse.AuditMessage) {
 		}
 	}
 	h.log = append(h.log, fmt.Sprintf("t%d:RC(%d,n=%d)", tid(), s, len(msgs)))
-	re := !h.reentered && (h.p.Stream == 1 || h.p.Stream == 2)
+	re := !h.reentered && (h.p.Stream == 1 || h.p.Stream == 2 || h.p.Stream == 4)
 	if re {
 		h.reentered = true
 	}
@@ -146,6 +148,8 @@ func (h *harness) ReassemblyComplete(msgs []*auparse.AuditMessage) {
 			h.do(oMaintain, true)
 		case 2:
 			h.push(seqC, 1300, true)
+		case 4:
+			h.do(oClose, true)
 		}
 	}
 }
@@ -191,6 +195,14 @@ func (h *harness) do(op int, nested bool) {
 		h.push(seqB, 1300, nested)
 	case oPushAeoe:
 		h.push(seqA, 1320, nested)
+	case oTickMaintain:
+		if !nested {
+			sched.Yield("call-tick")
+		}
+		if c := vtime.Installed(); c != nil {
+			c.Advance(5 * time.Millisecond)
+		}
+		h.do(oMaintain, true)
 	case oMaintain, oClose:
 		if !nested {
 			sched.Yield("call-" + opNames[op])
@@ -215,7 +227,11 @@ func (h *harness) do(op int, nested bool) {
 
 func newHarness(p Program) *harness {
 	h := &harness{p: p, byPtr: map[*auparse.AuditMessage]*pushed{}}
-	r, err := libaudit.NewReassembler(p.MaxInFlight, 1000*time.Hour, h)
+	to := 1000 * time.Hour
+	if p.Timeout > 0 {
+		to = time.Duration(p.Timeout) * time.Millisecond
+	}
+	r, err := libaudit.NewReassembler(p.MaxInFlight, to, h)
 	if err != nil {
 		panic(err)
 	}
@@ -323,6 +339,30 @@ func programs(tier string) []Program {
 				for j := i; j < len(tp); j++ {
 					out = append(out, Program{Threads: [][]int{tp[i], tp[j]}, MaxInFlight: m, Stream: s})
 				}
+			}
+		}
+	}
+	// timed family: a finite timeout, a Maintain that really delivers a batch, Close racing with it
+	// or called from inside a callback
+	var tpT [][]int
+	timedOps := []int{oPushAmid, oPushBmid, oTickMaintain, oClose}
+	for _, a := range timedOps {
+		tpT = append(tpT, []int{a})
+		for _, b := range timedOps {
+			tpT = append(tpT, []int{a, b})
+			if a == oPushAmid && b == oPushBmid {
+				tpT = append(tpT, []int{a, b, oTickMaintain}, []int{a, b, oTickMaintain, oClose})
+			}
+		}
+	}
+	for _, st := range []int{0, 4, 1} {
+		for i := 0; i < len(tpT); i++ {
+			out = append(out, Program{Threads: [][]int{tpT[i]}, MaxInFlight: 3, Stream: st, Timeout: 2})
+			for j := i; j < len(tpT); j++ {
+				if len(tpT[i])+len(tpT[j]) > 5 {
+					continue
+				}
+				out = append(out, Program{Threads: [][]int{tpT[i], tpT[j]}, MaxInFlight: 3, Stream: st, Timeout: 2})
 			}
 		}
 	}
